@@ -65,7 +65,7 @@ type world struct {
 	failRemaining int
 	// the real Close stops the idle and scale-in timers first, and timer.Stop waits for a
 	// running callback: model that with one lock per timer and a stopped flag
-	idleBusy, capBusy, timersStopped bool
+	idleBusy, capBusy, idleStopped, capStopped bool
 	// backend layer
 	cp    backend.ConnectionPool
 	bheld map[backend.PooledConnect]string
@@ -171,7 +171,7 @@ func runThread(w *world, name, prog string) {
 			w.rp.Put(rr)
 		case 'I':
 			vsched.PointIf("timer", "idle", func() bool { return !w.idleBusy })
-			if w.timersStopped {
+			if w.idleStopped {
 				continue
 			}
 			w.idleBusy = true
@@ -180,7 +180,7 @@ func runThread(w *world, name, prog string) {
 			w.idleBusy = false
 		case 'S':
 			vsched.PointIf("timer", "cap", func() bool { return !w.capBusy })
-			if w.timersStopped {
+			if w.capStopped {
 				continue
 			}
 			w.capBusy = true
@@ -192,9 +192,11 @@ func runThread(w *world, name, prog string) {
 			w.rp.SetCapacity(int(prog[i] - '0'))
 		case 'X':
 			// Close() = idleTimer.Stop(); capTimer.Stop(); ScaleCapacity(0)
+			// each Stop takes effect at once (no callback starts after it returned)
 			vsched.PointIf("timer.stop", "idle", func() bool { return !w.idleBusy })
+			w.idleStopped = true
 			vsched.PointIf("timer.stop", "cap", func() bool { return !w.capBusy })
-			w.timersStopped = true
+			w.capStopped = true
 			w.rp.Close()
 		}
 	}
